@@ -153,6 +153,42 @@ impl Oracle for C38 {
             Outcome::Delivered { to, hashes, result, stream } => {
                 let hs = hashes.clone();
                 self.note_offer(w, *to, &hs, if *stream { "stream" } else { "direct" }, result.is_ok());
+                // "a change that would create such a pair is rejected" - and only such a change: a DuplicateSeqNumber error
+                // for an offer none of whose changes collides with an applied change, a held change or another change of the
+                // same offer is a rejection of honest data
+                if let Err(e) = result {
+                    if e.to_lowercase().contains("duplicate") && !w.reps[*to].tainted && w.reps[*to].isolated.is_none() {
+                        let mut seen: BTreeMap<(Vec<u8>, u64), Hash> = w.reps[*to].known.iter().filter_map(|h| w.reg.get(h)).map(|c| ((c.actor.clone(), c.seq), c.hash)).collect();
+                        let bytes = w.reps[*to].doc.document().save_with_options(automerge::SaveOptions { deflate: false, retain_orphans: true });
+                        for (a, sq, h) in orphans_of(&bytes) {
+                            seen.entry((a, sq)).or_insert(h);
+                        }
+                        let mut collision = false;
+                        let mut all_known = true;
+                        for h in &hs {
+                            match w.reg.get(h) {
+                                Some(c) => match seen.get(&(c.actor.clone(), c.seq)) {
+                                    Some(h2) if *h2 != c.hash => collision = true,
+                                    Some(_) => {}
+                                    None => {
+                                        seen.insert((c.actor.clone(), c.seq), c.hash);
+                                    }
+                                },
+                                None => all_known = false,
+                            }
+                        }
+                        w.stats.bump("probe.duplicate_rejections_examined");
+                        if !collision && all_known {
+                            return Err(violation(
+                                "C38",
+                                "only_conflicting_changes_rejected",
+                                "spurious-duplicate-seq",
+                                w.step,
+                                format!("replica {to}: an offer of {} change(s) was rejected with {e}, but none of them shares (actor, seq) with a different applied, held or offered change", hs.len()),
+                            ));
+                        }
+                    }
+                }
                 self.check(w, *to, w.step % 5 == 0)
             }
             Outcome::Merged { from, to, result } => {
